@@ -79,7 +79,10 @@ pub fn install_panic_hook() {
             .location()
             .map(|l| format!("{}:{}", l.file(), l.line()))
             .unwrap_or_else(|| "?".into());
-        let text = format!("{} @ {}", msg, loc);
+        // a subject that hands out invalid UTF-8 inside a `String` (undefined behaviour behind
+        // from_utf8_unchecked) can put such bytes into its panic message: sanitise before anything
+        // formats it again
+        let text = String::from_utf8_lossy(format!("{} @ {}", msg, loc).as_bytes()).into_owned();
         let in_subject = IN_SUBJECT.with(|f| *f.borrow());
         if in_subject {
             LAST_PANIC.with(|p| *p.borrow_mut() = Some(text));
